@@ -20,7 +20,7 @@ CFG = dict(
                   n_quick=120, n_thorough=3000, thorough_seeds=2, n_search=400, search_seeds=3)],
     rule="seeded generator of event histories (OperatorAdded/Removed, ValidatorAdded/Removed/Exited, ClusterLiquidated/Reactivated, FeeRecipientUpdated, unparsable, unknown "
          "topic, no topics; ValidatorAdded in 14 single-fact malformed variants; committees of 4/7/10/13; own operator in/out of the committee; nonce near the uint16 wrap; "
-         "metadata / decided history / restarts between blocks; inferior blocks; in ~40% of the cases one crash or failing storage write at any write made while a block is processed - transactional or with a nil transaction, before or after the commit, biased to the last writes - followed by restart and re-delivery from the stored marker+1), each history run under two independently drawn batchings on the real handler and on the "
+         "metadata / decided history / restarts between blocks; inferior blocks incl. EMPTY ones below / at the marker followed by re-delivery of processed blocks; in ~40% of the cases one crash or failing storage write at any write made while a block is processed - transactional or with a nil transaction, before or after the commit, biased to the last writes - followed by restart and re-delivery from the stored marker+1), each history run under two independently drawn batchings on the real handler and on the "
          "model; a case class is distinct per (block status, per-event outcome string, write trace)",
     trusted_base=["harness realisation of abstract events as ABI-packed logs and recomputation of every fact with the real code (verifySignature, operator decrypter, BLS)",
                   "phase0.SignatureLength = 96 and PublicKeyLength = 48 are typed into the model (go-eth2-client is outside the extractor's roots); the differential run exercises them",
